@@ -98,7 +98,7 @@ func init() {
 		}
 		spec := &mc.Spec{
 			Level: "exploration",
-			Rule: "every mount table of ≤ maxLen entries over 12 entry classes (bind ro/rw of directories and files, tmpfs, proc ro/rw, nested target, missing source with FilterNotExist, read-only bind whose source lies on a nosuid/noexec/nodev mount, read-only binds written by hand with only MS_BIND|MS_RDONLY) × both implementations of the mount sequence (raw in-child via the namespace runner, in-container; the container also with a symlink and with masked file/directory paths); " +
+			Rule: "every mount table of ≤ maxLen entries over 12 entry classes (bind ro/rw of directories and files, tmpfs, proc ro/rw, nested target, missing source with FilterNotExist, read-only bind whose source lies on a nosuid/noexec/nodev mount, read-only binds written by hand with only MS_BIND|MS_RDONLY) × both implementations of the mount sequence (raw in-child via the namespace runner, in-container; the container also with a symlink and with masked file/directory paths, named directly or through a configured symbolic link); " +
 				"a probe inside reports the root listing, read-only flags and the outcome of create / mkdir / open-for-write / truncate / chmod / rename / unlink on the root and in every mount, '..' from the root, the old root, and seven escape routes to a host canary file; the host side reads /proc/<pid>/mountinfo of the sandboxed process. Oracle: reference model of the table. " +
 				"non-trivial: the table is not empty; distinct = (implementation, table, observations)",
 			Bound:       map[string]any{"max_entries": maxLen, "escape_routes": 7},
@@ -121,7 +121,7 @@ func init() {
 			cleanupTmp()
 		}
 		spec.Body = func(x *mc.X) {
-			impl := x.Pick("implementation", "namespace-runner", "container", "container+masks", "container+masks-without-devnull")
+			impl := x.Pick("implementation", "namespace-runner", "container", "container+masks", "container+masks-without-devnull", "container+masks-through-link")
 			n := x.Choose(maxLen+1, "entries")
 			var classes []c05class
 			procs := 0
@@ -199,8 +199,9 @@ func c05run(x *mc.X, impl string, classes []c05class) {
 	x.Note("table", names)
 	// masks (container only): a file and a directory inside the first directory bind
 	var maskFile, maskDir string
+	hasDevnull := impl == "container+masks" || impl == "container+masks-through-link"
 	if strings.HasPrefix(impl, "container+masks") {
-		if impl == "container+masks" {
+		if hasDevnull {
 			b.WithBind("/dev/null", "dev/null", false) // file masks are bind mounts of the container's /dev/null
 		}
 		for _, e := range entries {
@@ -258,6 +259,11 @@ func c05run(x *mc.X, impl string, classes []c05class) {
 			if maskFile != "" {
 				cb.MaskPaths = []string{maskFile, maskDir}
 			}
+			if impl == "container+masks-through-link" {
+				// the same two objects, named through a configured symbolic link to their directory
+				cb.SymbolicLinks = append(cb.SymbolicLinks, container.SymbolicLink{LinkPath: "/mlnk", Target: filepath.Dir(maskFile)})
+				cb.MaskPaths = []string{"/mlnk/maskme", "/mlnk/sub"}
+			}
 		})
 		if err != nil {
 			pw.Close()
@@ -283,8 +289,11 @@ func c05run(x *mc.X, impl string, classes []c05class) {
 	}
 	// --- the root
 	wantRoot := map[string]bool{"probe": true, "w": true}
-	if impl == "container+masks" {
+	if hasDevnull {
 		wantRoot["dev"] = true
+	}
+	if impl == "container+masks-through-link" {
+		wantRoot["mlnk"] = true
 	}
 	if impl != "namespace-runner" {
 		wantRoot["lnk"] = true
@@ -417,7 +426,7 @@ func c05run(x *mc.X, impl string, classes []c05class) {
 		}
 	}
 	wantMounts := map[string]string{"/": "ro", "/probe": "ro", "/w": "rw"}
-	if impl == "container+masks" {
+	if hasDevnull {
 		wantMounts["/dev/null"] = "rw"
 	}
 	for _, e := range entries {
